@@ -53,3 +53,11 @@ def to_text(t, nsmap):
 def text_to_sx(xml_bytes):
     root = ET.fromstring(xml_bytes)
     return tree_sx(root), dict(root.nsmap)
+
+
+def sort_attrs(t):
+    """The tree with every element's attributes sorted by name (their order carries no meaning; the Lean driver prints
+    them sorted as well)."""
+    if t[0] == "c":
+        return t
+    return [t[0], t[1], t[2], sorted(t[3], key=lambda kv: uS(kv[0])), t[4], [sort_attrs(k) for k in t[5]]]
